@@ -493,7 +493,7 @@ func (h H) fileNameParsers(rule string) {
 		// parser: strconv.ParseUint(_, 10, 64) exactly nNum times, no ParseInt/Atoi
 		nU, nBad := 0, 0
 		pfi := h.P.Info(pf)
-		core.Instrs(pf, func(in ssa.Instruction) {
+		h.P.InstrsScope(pf, func(in ssa.Instruction) {
 			c, ok := in.(*ssa.Call)
 			if !ok || c.Common().StaticCallee() == nil {
 				return
